@@ -257,6 +257,23 @@ class CFG:
                         out.append((n.expr, lab))
         return out
 
+    def guards_between(self, a: CNode, b: CNode, avoid: Iterable[CNode] = ()) -> List[Tuple[ast.AST, bool]]:
+        """(test, polarity) pairs whose branch edge lies on every path a -> b that does not pass through `avoid`
+        (the conditions under which a value defined at `a` arrives at `b` without being redefined at `avoid`)."""
+        avoid = [x for x in avoid if x.id not in (a.id, b.id)]
+        out = []
+        if b.id not in self.reachable_from(a, avoid=avoid):
+            return out
+        for n in self.nodes:
+            if n.kind != "test":
+                continue
+            for t, lab in self.succ[n.id]:
+                if lab in (True, False):
+                    r = self.reachable_from(a, avoid=avoid, skip_edges={(n.id, t, lab)})
+                    if b.id not in r:
+                        out.append((n.expr, lab))
+        return out
+
     def fallthrough_exits(self) -> List[CNode]:
         """Nodes that reach the normal exit without a `return` statement (implicit None)."""
         reach = self.reachable_from(self.entry)
